@@ -1517,6 +1517,36 @@ func c10GenCase(r *rand.Rand, kind string) *c10Case {
 	return c
 }
 
+// the listed finding of this property, every run: two maps of 600 entries each with no key in common; their difference
+// holds 1200 points (600 removed, 600 added), which MergePoints refuses although neither map is over the limit
+func c10BigMapDiffCase(r *rand.Rand) *c10Case {
+	for _, T := range c10Types {
+		for i, f := range T.fields {
+			if f.kind != 4 || f.edge {
+				continue
+			}
+			g := &c10Gen{r: r, noBig: true, noNegZero: true, noBlank: true}
+			c := &c10Case{Kind: "diffmerge", Type: T.name, Shuf: 7, Gen: "wf"}
+			c.V = g.cfg(T)
+			c.B = &c10Cfg{ID: c.V.ID, Parent: c.V.Parent}
+			for j := range c.V.Vals {
+				c.B.Vals = append(c.B.Vals, c10CopyFV(c.V.Vals[j]))
+			}
+			mk := func(prefix string) c10FV {
+				fv := c10FV{Kind: c.V.Vals[i].Kind}
+				for k := 0; k < 600; k++ {
+					fv.Keys = append(fv.Keys, []byte(fmt.Sprintf("%s%03d", prefix, k)))
+					fv.L = append(fv.L, g.prim(f.prim))
+				}
+				return fv
+			}
+			c.V.Vals[i], c.B.Vals[i] = mk("a"), mk("b")
+			return c
+		}
+	}
+	return nil
+}
+
 func c10Digest(s string) string {
 	h := sha1.Sum([]byte(s))
 	return hex.EncodeToString(h[:])[:16]
@@ -1575,6 +1605,10 @@ func c10Run(cfg *config) error {
 		}
 		for i := 0; i < 1200*cfg.scale; i++ {
 			cases = append(cases, c10GenCase(r, "diffmerge"))
+		}
+		// the case of the listed finding (its own random stream: the other cases stay what they were)
+		if bm := c10BigMapDiffCase(rand.New(rand.NewSource(cfg.seed + 77))); bm != nil {
+			cases = append(cases, bm)
 		}
 		for i := 0; i < 400*cfg.scale; i++ {
 			cases = append(cases, c10GenTreeCase(r))
